@@ -519,7 +519,10 @@ static inline int ubuf_block_prepend(struct ubuf *ubuf, int prepend)
     block->offset -= prepend;
     block->size += prepend;
     block->total_size += prepend;
-    block->cached_offset += prepend;
+    /* the cached segment starts prepend octets later, unless it is the
+     * first segment itself, which still starts at offset 0 */
+    if (block->cached_ubuf != ubuf)
+        block->cached_offset += prepend;
     return UBASE_ERR_NONE;
 }
 
